@@ -252,6 +252,30 @@ def c02_v6_special():
                      "undo did not restore the IPv6 address", "_anonymize_match")
 
 
+def c02_mask_images():
+    """addresses whose image is netmask-shaped: either the text keeps that image (then undo deliberately leaves it
+    alone - the exclusion the statement allows) or, whatever else is written instead, undo must restore the original"""
+    ms = masks()
+    lines = []
+    for c in REAL_CFG[:3]:
+        an = mk4(c)
+        for m in ms[:: (4 if TIER == "quick" else 1)]:
+            x = mk4(c).deanonymize(m)
+            if x in set(ms) or not an.should_anonymize(x):
+                continue
+            txt = str(ipaddress.IPv4Address(x))
+            line = "peer %s up\n" % txt
+            note(("mask-image", c["salt"], c["suffix"], x))
+            out = anonymize_ip_addr(an, line)
+            written = out.split()[1]
+            if int(ipaddress.IPv4Address(written)) in set(ms):
+                continue                      # image is mask-shaped: excluded by the statement
+            back = anonymize_ip_addr(mk4(c), out, True)
+            if back != line:
+                fail("C02.file", {"config": c, "line": line, "anon": out, "undone": back},
+                     "undo did not restore an address whose written image is not mask-shaped", "_anonymize_match")
+
+
 def c03():
     cfgs = list(tiny_configs())
     RNG.shuffle(cfgs)
@@ -545,13 +569,13 @@ def c17():
                      "dump_to_file")
 
 
-CHECKS = {"C01": [c01_tiny, c01_real, lambda: c_text_consistency("C01.text"), lambda: c_cli_equiv("C01.cli")], "C02": [c02, c02_v6_special], "C03": [c03, c03_text], "C04": [c04, lambda: c_cli_equiv("C04.cli")],
+CHECKS = {"C01": [c01_tiny, c01_real, lambda: c_text_consistency("C01.text"), lambda: c_cli_equiv("C01.cli")], "C02": [c02, c02_v6_special, c02_mask_images], "C03": [c03, c03_text], "C04": [c04, lambda: c_cli_equiv("C04.cli")],
           "C05": [c05, c05_nested, lambda: c_text_consistency("C05.text"), lambda: c_cli_equiv("C05.cli")], "C17": [c17]}
 BOUNDS = {
     "C01": "5 IP option sets through main() compared with the library given the same options as lists; real base class at widths 1..4 (quick) / 1..5 (thorough), salter truth tables (all for width<=3), all host-bit counts, "
            "5 seed sets, all address pairs; real IpAnonymizer/IpV6Anonymizer: 7 configurations x every common-prefix length x 2/20 pairs",
     "C02": "same tiny space with fresh-instance undo; 12 real configurations; 2 text lines x 3 configurations for file-level undo; "
-           "4 configurations x (11 special IPv6 blocks x 2/20 members and pre-images + 40/1000 random addresses) anonymize + fresh undo at text level",
+           "4 configurations x (11 special IPv6 blocks x 2/20 members and pre-images + 40/1000 random addresses) anonymize + fresh undo at text level; pre-images of 16/62 masks x 3 configurations",
     "C03": "300/5000 tiny configurations x random anonymize/undo histories of length 3*2^w vs fresh instance per request; "
            "text-level API: 4 real configurations x 2 families x 8/60 interleaved anonymize/undo lines vs fresh instance",
     "C04": "5 IP option sets through main() compared with the library given the same options as lists; tiny space (prefix both ways, host bits, head independence); 12 real configurations x boundary and random addresses, both families",
